@@ -1,4 +1,5 @@
 import FalconModel.Ws
+import FalconModel.WsAcceptIO
 open Ws
 
 /-! line protocol of the C17 correspondence: one session per line, `key=value` tokens separated by blanks
@@ -7,7 +8,8 @@ open Ws
          route=r|u|n inbox=<in>,… reasons=<int>,… mwreq=<step>;… mwres=<step>;… script=<step>;… custom=none|h:<step>;… fd=-|<int>
 
     step = <op>:<catch 0|1|2>:<disc -|int>;  op = A<headers><subprotocol><badsub> | C(n|x|<int>)[+] | St | Sb | Rt | Rd | Rm |
-    H<status> | T<status> | X | B | E<class>;  in = t1 | t0 | b | dn | d<code>
+    H<status> | T<status> | X | B | E<class> | Ag<sub>~<hdrs> (accept with concrete arguments: WsAcceptIO.lean) | Kt | Kd | Km (a receive_*
+    that parked and was cancelled);  in = t1 | t0 | b | dn | d<code>
 
     reply: sent=<ev>,… log=<outcome>,… hlog=<outcome>,… esc=<exc>|- pub=<unaccepted><closed><ready>|- -/
 
@@ -28,13 +30,15 @@ def parseExc (r : List Char) : Option Exc :=
   | ['v', 'e', 'o'] => some .valueOther
   | ['o', 's', 'e'] => some .osErr
   | ['a', 'e'] => some .assertion
+  | ['p', 'y'] => some .pyErr
   | ['w', 's', 'd', 'n'] => some (Ws.wsd none)
   | 'w' :: 's' :: 'd' :: r => (String.ofList r).toInt?.map fun c => Ws.wsd (some c)
   | _ => none
 
 def parseOp (s : String) : Option Op :=
   match s.toList with
-  | ['A', h, p, b] => some (.accept (b01 h) (b01 p) (b01 b))
+  | ['A', h, p, b] => some (.accept (b01 h) (b01 p) (b01 b) none)
+  | 'A' :: 'g' :: r => (Wa.parseAcceptTok ('g' :: r)).map fun (sub, a) => Wa.toOp sub a
   | ['C', 'n'] => some (.close .none false)
   | ['C', 'n', '+'] => some (.close .none true)
   | ['C', 'x'] => some (.close .notInt false)
@@ -47,6 +51,9 @@ def parseOp (s : String) : Option Op :=
   | ['R', 't'] => some (.recv .text)
   | ['R', 'd'] => some (.recv .data)
   | ['R', 'm'] => some (.recv .media)
+  | ['K', 't'] => some (.recvAbandoned .text)
+  | ['K', 'd'] => some (.recvAbandoned .data)
+  | ['K', 'm'] => some (.recvAbandoned .media)
   | 'H' :: r => (String.ofList r).toInt?.map .raiseHttp
   | 'T' :: r => (String.ofList r).toInt?.map .raiseStatus
   | ['X'] => some .raiseExc
@@ -88,11 +95,15 @@ def splitNE (s : String) (sep : String) : List String := if s.isEmpty then [] el
 
 def parseDisc (s : String) : Option Int := if s == "-" then none else s.toInt?
 
+/-- a step that does not parse becomes a marker raise, so a protocol error can never look like agreement -/
 def parseSteps (s : String) : List Step :=
-  (splitNE s ";").filterMap fun t =>
+  (splitNE s ";").map fun t =>
     match t.splitOn ":" with
-    | [o, c, d] => (parseOp o).map fun op => (op, (if c == "1" then Catch.documented else if c == "2" then Catch.all else Catch.none), parseDisc d)
-    | _ => none
+    | [o, c, d] =>
+      match parseOp o with
+      | some op => (op, (if c == "1" then Catch.documented else if c == "2" then Catch.all else Catch.none), parseDisc d)
+      | none => (.raiseStatus (-1), .none, none)
+    | _ => (.raiseStatus (-2), .none, none)
 
 def parseFault (s : String) : Fault :=
   if s == "ok1000" then .ok1000 else if s == "sub" then .subproto else if s == "other" then .other
